@@ -26,8 +26,13 @@ def isDigit (c : Char) : Bool := 48 ≤ c.toNat && c.toNat ≤ 57
 def isSpace (c : Char) : Bool :=
   c.toNat = 32 || (9 ≤ c.toNat && c.toNat ≤ 13) || (28 ≤ c.toNat && c.toNat ≤ 31)
 
+/-- whitespace `int()` skips around an ASCII numeral (C `isspace`: `\x1c`–`\x1f` are *not* skipped, unlike `str.strip()`) -/
+def isSpaceC (c : Char) : Bool := c.toNat = 32 || (9 ≤ c.toNat && c.toNat ≤ 13)
+
+def stripBy (p : Char → Bool) (s : List Char) : List Char := ((s.dropWhile p).reverse.dropWhile p).reverse
+
 /-- `s.strip()` -/
-def strip (s : List Char) : List Char := ((s.dropWhile isSpace).reverse.dropWhile isSpace).reverse
+def strip (s : List Char) : List Char := stripBy isSpace s
 
 /-- digits, single underscores allowed between digits -/
 def validGo (prevDigit : Bool) : List Char → Bool
@@ -41,7 +46,7 @@ def parseDigits (s : List Char) : Option Nat := if validGo false s then some (di
 
 /-- `int(s)`; `none` models `ValueError` -/
 def pyIntParse (s : List Char) : Option Int :=
-  match strip s with
+  match stripBy isSpaceC s with
   | '-' :: r => (parseDigits r).map (fun n => -(Int.ofNat n))
   | '+' :: r => (parseDigits r).map Int.ofNat
   | r => (parseDigits r).map Int.ofNat
